@@ -9,10 +9,14 @@ environments and all fuel; loops are handled by induction on the fuel.
 * `C02_compile_correct_F0` — Leroy-style simulation for expressions: if the reference interpreter
   evaluates `e` to `v` in store `ρ'`, the VM run of `compile e` from the encoding of `ρ` reaches the end of
   the code with `v` pushed (nothing for void) and locals encoding `ρ'`; runtime errors map to the same kind;
-  `break`/`continue` reach the enclosing loop's exit/entry with the operand stack of the loop.
-* `C02_compile_correct_F0_program` — the same for a whole `<main>` run from the initial state.
-* `C02_depth_unsafe_counterexample` — without `DepthSafe` the statement is false (D21): a concrete F0
-  program whose compiled code prints 15 where the reference prints 105.
+  `break`/`continue` reach the enclosing loop's exit/entry with the operand stack the loop body started with:
+  the `d` operands pushed since then are dropped, wherever in an expression the `break`/`continue` sits.
+  Until 0c43abd this needed the side condition DepthSafe (no `break`/`continue` while an operand is pending: D21);
+  the compile model now follows the repaired translator (pending-operand count, `Pop`s before the jump) and the
+  theorem holds for every F0 program.
+* `C02_compile_correct_F0_program` — the same for a whole `<main>` run from the initial state, no side condition.
+* `C02_d21_witness_repaired`, `C02_break_pops_pending` — the former D21 counterexample (not DepthSafe) now prints
+  105 on both sides; `break`/`continue` compiled at depth `d` are `d` `Pop`s and the jump.
 * `C02_reg_roundtrip`, `C02_reg_encode_range` — `Reg::encode` and the decoding in `load_offset_or_top`.
 
 -- OPEN: `compile_correct` for the whole core language (functions, heap data, closures, match) is not
@@ -21,11 +25,13 @@ environments and all fuel; loops are handled by induction on the fuel.
 namespace Abra.Compile
 open Abra.Sem Abra.VM
 
-/-- **Compiler correctness for F0 expressions.**  `compE … e = some …` says `e` is in F0 and well typed;
-    `depthSafeE 0 e` is the DepthSafe hypothesis. -/
+/-- **Compiler correctness for F0 expressions.**  `compE … d e = some …` says `e` is in F0 and well typed and was
+    compiled at a point where `d` operands are pending since the body of the enclosing loop began (`d ≤ |T|`: they are
+    on the operand stack).  A `break`/`continue` inside `e` reaches the loop's exit/entry with exactly those `d`
+    operands dropped (`dropPending T d`) — no DepthSafe side condition any more (fix 0c43abd). -/
 theorem C02_compile_correct_F0 (W : World) (Pg : Prog) (fuel : Nat) (e : Expr) (st : St)
-    (Γ : TEnv) (next : Nat) (code : Code) (τ : Ty) (n' : Nat) (lc : Nat × Nat) (pos : Nat) (L T : List VM.Val)
-    (hc : compE Γ next e = some (code, τ, n')) (hd : depthSafeE 0 e = true)
+    (Γ : TEnv) (next d : Nat) (code : Code) (τ : Ty) (n' : Nat) (lc : Nat × Nat) (pos : Nat) (L T : List VM.Val)
+    (hc : compE Γ next d e = some (code, τ, n')) (hd : d ≤ T.length)
     (hcode : codeAt W.P pos (resolveAt pos lc code))
     (henv : EnvRel L Γ st.env) (hwf : WfΓ Γ next) (hlen : n' ≤ L.length) :
     match evalE fuel Pg st e with
@@ -33,10 +39,10 @@ theorem C02_compile_correct_F0 (W : World) (Pg : Prog) (fuel : Nat) (e : Expr) (
         ∧ EnvRel L' Γ st'.env ∧ HasTy v τ
     | .sig (.err k) st' => ∃ s1 s2, Steps W.P (W.cfg pos L T st.out) s1
         ∧ VM.step W.P s1 = .error (encErr k) s2 ∧ s1.out = st'.out
-    | .sig .brk st' => ∃ L', Steps W.P (W.cfg pos L T st.out) (W.cfg lc.2 L' T st'.out) ∧ EnvRel L' Γ st'.env
-    | .sig .cont st' => ∃ L', Steps W.P (W.cfg pos L T st.out) (W.cfg lc.1 L' T st'.out) ∧ EnvRel L' Γ st'.env
+    | .sig .brk st' => ∃ L', Steps W.P (W.cfg pos L T st.out) (W.cfg lc.2 L' (dropPending T d) st'.out) ∧ EnvRel L' Γ st'.env
+    | .sig .cont st' => ∃ L', Steps W.P (W.cfg pos L T st.out) (W.cfg lc.1 L' (dropPending T d) st'.out) ∧ EnvRel L' Γ st'.env
     | _ => True := by
-  have h := (sim_all W Pg fuel).1 e st Γ next code τ n' lc 0 pos L T hc hd hcode henv hwf hlen
+  have h := (sim_all W Pg fuel).1 e st Γ next code τ n' lc d pos L T hc hd hcode henv hwf hlen
   cases hr : evalE fuel Pg st e with
   | ok v st' =>
     rw [hr] at h
@@ -46,8 +52,8 @@ theorem C02_compile_correct_F0 (W : World) (Pg : Prog) (fuel : Nat) (e : Expr) (
     rw [hr] at h
     cases g with
     | err k => exact h
-    | brk => obtain ⟨_, L', h1, h2, _⟩ := h; exact ⟨L', h1, h2⟩
-    | cont => obtain ⟨_, L', h1, h2, _⟩ := h; exact ⟨L', h1, h2⟩
+    | brk => obtain ⟨L', h1, h2, _⟩ := h; exact ⟨L', h1, h2⟩
+    | cont => obtain ⟨L', h1, h2, _⟩ := h; exact ⟨L', h1, h2⟩
     | ret v => trivial
   | timeout => trivial
   | stuck w => trivial
@@ -69,7 +75,7 @@ def FinalOnTop (v : Sem.Val) (stack : List VM.Val) : Prop :=
     compiled program, run from the initial VM state, stops with the output and final value the reference
     interpreter computes, or with the same runtime error kind and the output printed before it. -/
 theorem C02_compile_correct_F0_program (ss : Stmts) (code : Program) (fuel : Nat)
-    (hc : compileMain ss = some code) (hd : depthSafeSs 0 ss = true) :
+    (hc : compileMain ss = some code) :
     match Sem.run fuel ⟨[], [], ss⟩ with
     | .done v _ out => ∃ m s, VM.run code m State.init = .done s ∧ s.out = out ∧ FinalOnTop v s.stack
     | .error k out => ∃ m s, VM.run code m State.init = .error (encErr k) s ∧ s.out = out
@@ -93,7 +99,7 @@ theorem C02_compile_correct_F0_program (ss : Stmts) (code : Program) (fuel : Nat
     have hinit : VM.step W.P State.init = .ok (W.cfg 1 L0 [] []) := by
       simp only [VM.step, State.init, h0, World.cfg, W, L0, List.nil_append, List.append_nil, Nat.zero_add,
         List.length_nil]
-    have hsim := (sim_all W ⟨[], [], ss⟩ fuel).2.2 ss St.init [] 0 true c τ n (0, 0) 0 1 L0 [] heq hd hcodeAt
+    have hsim := (sim_all W ⟨[], [], ss⟩ fuel).2.2 ss St.init [] 0 true c τ n (0, 0) 0 1 L0 [] heq (Nat.zero_le _) hcodeAt
       .nil trivial (by simp [L0])
     simp only [Sem.run]
     cases hr : evalSs fuel ⟨[], [], ss⟩ St.init ss with
@@ -162,8 +168,8 @@ theorem C02_reg_encode_range (r : Reg) :
       · simp only [Option.some.injEq] at h; omega
       · simp at h
 
-/-- The D21 witness: `var s = 10; let r = 100 + { while true { s + { if true { break } else { }; 1 } }; 5 };
-    println(r)` — an F0 program that the compile model accepts and that is *not* DepthSafe. -/
+/-- The former D21 witness: `var s = 10; let r = 100 + { while true { s + { if true { break } else { }; 1 } }; 5 };
+    println(r)` — an F0 program in which `break` runs while two operands (`100`, `s`) are pending. -/
 def d21Witness : Stmts :=
   Stmts.ofList [
     .let_ (.bind "s") (.int 10),
@@ -175,6 +181,19 @@ def d21Witness : Stmts :=
         .expr (.int 5)]))),
     .expr (.print (.var "r"))]
 
+/-- `var i = 0; var acc = 0; while i < 4 { i += 1; acc = acc + i * { if i == 2 { continue } else { }; 10 } };
+    println(acc)`: `continue` with `acc` and `i` pending, inside a compound right-hand side -/
+def continueWitness : Stmts :=
+  Stmts.ofList [
+    .let_ (.bind "i") (.int 0),
+    .let_ (.bind "acc") (.int 0),
+    .while_ (.bin .lt (.var "i") (.int 4)) (Stmts.ofList [
+      .assign "i" .add (.int 1),
+      .assign "acc" .set (.bin .add (.var "acc") (.bin .mul (.var "i") (.block (Stmts.ofList [
+        .expr (.ite (.bin .eq (.var "i") (.int 2)) (.block (Stmts.ofList [.continue_])) (.block .nil)),
+        .expr (.int 10)]))))]),
+    .expr (.print (.var "acc"))]
+
 def semOut : Outcome → Option (List String)
   | .done _ _ out => some out
   | _ => none
@@ -183,14 +202,24 @@ def vmOut : RunResult → Option (List String)
   | .done s => some s.out
   | _ => none
 
-/-- **Without DepthSafe the correctness statement fails** (D21): the reference prints 105, the compiled
-    code — which the VM runs to completion without any fault — prints 15 (the operand pushed before the
-    `break` is consumed by the outer addition). -/
-theorem C02_depth_unsafe_counterexample :
+/-- **The D21 counterexample is repaired.**  The witness is not DepthSafe (the historical side condition), the
+    reference prints 105, and the code of the compile model — `Pop`s before the jump of `break`, as the translator
+    emits them since 0c43abd — run by the VM core prints 105 too (15 before the fix).  The second program does the
+    same for `continue` under two pending operands. -/
+theorem C02_d21_witness_repaired :
     depthSafeSs 0 d21Witness = false ∧
     semOut (Sem.run 100 ⟨[], [], d21Witness⟩) = some ["105\n"] ∧
-    (compileMain d21Witness).map (fun code => vmOut (VM.run code 100 State.init)) = some (some ["15\n"]) := by
-  refine ⟨by decide, by decide +kernel, by decide +kernel⟩
+    (compileMain d21Witness).map (fun code => vmOut (VM.run code 100 State.init)) = some (some ["105\n"]) ∧
+    depthSafeSs 0 continueWitness = false ∧
+    semOut (Sem.run 100 ⟨[], [], continueWitness⟩) = some ["80\n"] ∧
+    (compileMain continueWitness).map (fun code => vmOut (VM.run code 300 State.init)) = some (some ["80\n"]) := by
+  refine ⟨by decide, by decide +kernel, by decide +kernel, by decide, by decide +kernel, by decide +kernel⟩
+
+/-- `break`/`continue` translated where `d` operands are pending: `d` `Pop`s, then the jump (fix 0c43abd:
+    `for _ in enclosing_loop.pending_operands..st.pending_operands { emit(Pop) }`) -/
+theorem C02_break_pops_pending (Γ : TEnv) (next d : Nat) (il : Bool) :
+    compS Γ next d il .break_ = some (List.replicate d .pop ++ [.jump .brk], .unit, Γ, next) ∧
+    compS Γ next d il .continue_ = some (List.replicate d .pop ++ [.jump .cont], .unit, Γ, next) := ⟨rfl, rfl⟩
 
 /-- a finished run does not depend on the fuel it was given -/
 theorem run_done_unique {P : Program} : ∀ (n m : Nat) (s s1 s2 : State),
@@ -210,42 +239,6 @@ theorem run_done_unique {P : Program} : ∀ (n m : Nat) (s s1 s2 : State),
       | done s' => rw [hs] at h1 h2; cases h1; cases h2; rfl
       | fault f => rw [hs] at h1; cases h1
 
-/-- the program theorem is false once the DepthSafe hypothesis is dropped -/
-theorem C02_compile_correct_F0_needs_depth_safe :
-    ¬ ∀ (ss : Stmts) (code : Program) (fuel : Nat), compileMain ss = some code →
-      match Sem.run fuel ⟨[], [], ss⟩ with
-      | .done v _ out => ∃ m s, VM.run code m State.init = .done s ∧ s.out = out ∧ FinalOnTop v s.stack
-      | .error k out => ∃ m s, VM.run code m State.init = .error (encErr k) s ∧ s.out = out
-      | .timeout => True
-      | .stuck _ => True := by
-  intro hall
-  obtain ⟨_, hsem, hvm⟩ := C02_depth_unsafe_counterexample
-  cases hc : compileMain d21Witness with
-  | none => rw [hc] at hvm; simp at hvm
-  | some code =>
-    rw [hc] at hvm
-    simp only [Option.map_some, Option.some.injEq] at hvm
-    have h := hall d21Witness code 100 hc
-    cases hr : Sem.run 100 ⟨[], [], d21Witness⟩ with
-    | done v hp out =>
-      rw [hr] at h hsem
-      simp only [semOut, Option.some.injEq] at hsem
-      obtain ⟨m, s, hrun, hout, _⟩ := h
-      cases hr2 : VM.run code 100 State.init with
-      | done s2 =>
-        rw [hr2] at hvm
-        simp only [vmOut, Option.some.injEq] at hvm
-        have := run_done_unique m 100 _ _ _ hrun hr2
-        subst this
-        rw [hout, hsem] at hvm
-        exact absurd hvm (by decide)
-      | error k s2 => rw [hr2] at hvm; simp [vmOut] at hvm
-      | fault f => rw [hr2] at hvm; simp [vmOut] at hvm
-      | outOfFuel s2 => rw [hr2] at hvm; simp [vmOut] at hvm
-    | error k out => rw [hr] at hsem; simp [semOut] at hsem
-    | timeout => rw [hr] at hsem; simp [semOut] at hsem
-    | stuck w => rw [hr] at hsem; simp [semOut] at hsem
-
 /-! ### non-vacuity: the hypotheses are satisfiable by non-trivial programs -/
 
 /-- `var i = 0; var s = 0; while i < 3 { i += 1; if i == 2 { continue } else { }; s = s + i * 2 }; println(s); s` -/
@@ -260,7 +253,12 @@ def loopExample : Stmts :=
     .expr (.print (.var "s")),
     .expr (.var "s")]
 
-example : (compileMain loopExample).isSome = true ∧ depthSafeSs 0 loopExample = true := by decide
+example : (compileMain loopExample).isSome = true ∧ (compileMain d21Witness).isSome = true ∧
+    (compileMain continueWitness).isSome = true := by decide
+
+/-- the expression theorem at depth 1: `{ if b { break } else { }; 7 }` compiled as the right operand of a `+` -/
+example : (compE [("b", 0, .bool)] 1 1 (.block (Stmts.ofList [
+      .expr (.ite (.var "b") (.block (Stmts.ofList [.break_])) (.block .nil)), .expr (.int 7)]))).isSome = true := by decide
 
 example : semOut (Sem.run 100 ⟨[], [], loopExample⟩) = some ["8\n"] ∧
     (compileMain loopExample).map (fun code => vmOut (VM.run code 200 State.init)) = some (some ["8\n"]) := by
